@@ -80,6 +80,10 @@ func c16Build(c c16Case, epoch time.Time, now func() time.Time) (apply func() (c
 		return r
 	}
 	dp, cp, dr, cr := mkP(true), mkP(false), mkR(true), mkR(false)
+	// an RA, once built, is a value: it is still being sent, compared or rendered when the next one is built from the
+	// same plugins (the advertiser, the collector and the HTTP handlers all build their own) and must not change then
+	var prevOpts []ndp.Option
+	var prevText string
 	return func() (c16Reading, error) {
 		ra := &ndp.RouterAdvertisement{}
 		for _, p := range []Plugin{dp, cp, dr, cr} {
@@ -87,6 +91,12 @@ func c16Build(c c16Case, epoch time.Time, now func() time.Time) (apply func() (c
 				return c16Reading{}, verifkit.Violf("C16/unexpected-error", "Apply failed: %v", err)
 			}
 		}
+		if prevOpts != nil {
+			if now := vkOptsString(prevOpts); now != prevText {
+				return c16Reading{}, verifkit.Violf("C16/earlier-ra-rewritten", "building the next RA changed the one built before it:\nwas %s\nnow %s", prevText, now)
+			}
+		}
+		prevOpts, prevText = ra.Options, vkOptsString(ra.Options)
 		if len(ra.Options) != 4*fan {
 			return c16Reading{}, verifkit.Violf("C16/option-count", "want %d options got %s", 4*fan, vkOptsString(ra.Options))
 		}
